@@ -1,4 +1,4 @@
 From Coq Require Import ZArith List Bool Extraction ExtrOcamlBasic.
 From C16 Require Import Bytes Model.
 From Gen Require Import Frame.
-Extraction "c16.ml" read_bytes read_until_final feed ipc_init frame_from_buffer encode_frame.
+Extraction "c16.ml" read_bytes read_until_final client_request feed ipc_init frame_from_buffer encode_frame.
